@@ -4,7 +4,6 @@
 package jsonv
 
 import (
-	"unicode/utf8"
 	"bytes"
 	"encoding/base64"
 	"encoding/hex"
@@ -17,6 +16,7 @@ import (
 	"strconv"
 	"strings"
 	"time"
+	"unicode/utf8"
 
 	"google.golang.org/protobuf/encoding/protojson"
 	"google.golang.org/protobuf/proto"
@@ -343,6 +343,7 @@ func wktLeaf(m protoreflect.Message) M {
 	tok := val.Message(m)
 	r["tok"], r["tokS"], r["tokMs"], r["tokDate"] = tok, tok, tok, tok
 	r["len"] = 0
+	r["wempty"] = proto.Size(m.Interface()) == 0 // what empty_behavior calls empty
 	if m.Descriptor().FullName() == "google.protobuf.Timestamp" {
 		sec := m.Get(m.Descriptor().Fields().ByName("seconds")).Int()
 		nanos := m.Get(m.Descriptor().Fields().ByName("nanos")).Int()
